@@ -78,7 +78,18 @@ pub fn render_obo(f: &FactSet, rng: &mut Rng, o: &JaxOpts) -> String {
         if o.shuffle {
             rng.shuffle(&mut ps);
         }
-        let mut isa_lines: Vec<String> = ps.iter().map(|p| format!("is_a: {} ! {}", hp(*p), names.get(p).copied().unwrap_or("?"))).collect();
+        // an is_a tag may carry a trailing modifier block (axiom annotations) between the id and the comment
+        let mut isa_lines: Vec<String> = ps
+            .iter()
+            .map(|p| {
+                let modifier = if o.noise && rng.chance(1, 6) {
+                    *rng.pick(&[" {source=\"PMID:1234\"}", " {source=\"PMID:1\", source=\"ORCID:0000-0001\"}", " {is_inferred=\"true\"}"])
+                } else {
+                    ""
+                };
+                format!("is_a: {}{modifier} ! {}", hp(*p), names.get(p).copied().unwrap_or("?"))
+            })
+            .collect();
         if o.noise && isa_lines.len() >= 2 && rng.chance(1, 2) {
             // tag order inside a stanza is free: other tags may sit between two is_a lines
             let mut mixed: Vec<String> = Vec::new();
@@ -216,8 +227,22 @@ pub fn render_hpoa(f: &FactSet, rng: &mut Rng, o: &JaxOpts) -> String {
     for r in rows {
         out.push_str(&r);
         out.push('\n');
+        // an empty line is not a row of any database: ignored like every other foreign line
+        if o.noise && rng.chance(1, 12) {
+            out.push('\n');
+        }
     }
+    drop_final_newline_sometimes(&mut out, rng);
     out
+}
+
+/// a text file need not end with a line break: a third of the files end with their last row
+fn drop_final_newline_sometimes(out: &mut String, rng: &mut Rng) {
+    if rng.chance(1, 3) {
+        while out.ends_with('\n') {
+            out.pop();
+        }
+    }
 }
 
 /// genes_to_phenotype.txt: ncbi_gene_id, gene_symbol, hpo_id, hpo_name, frequency, disease_id
@@ -258,6 +283,10 @@ pub fn render_genes_to_phenotype(f: &FactSet, rng: &mut Rng, o: &JaxOpts) -> Str
         out.push_str(&r);
         out.push('\n');
     }
+    if !out.trim_end_matches('\n').is_empty() && out.matches('\n').count() > 1 {
+        // (the header line keeps its line break when there are no rows)
+        drop_final_newline_sometimes(&mut out, rng);
+    }
     out
 }
 
@@ -295,6 +324,10 @@ pub fn render_phenotype_to_genes(f: &FactSet, rng: &mut Rng, o: &JaxOpts) -> Str
     for r in rows {
         out.push_str(&r);
         out.push('\n');
+    }
+    if !out.trim_end_matches('\n').is_empty() && out.matches('\n').count() > 1 {
+        // (the header line keeps its line break when there are no rows)
+        drop_final_newline_sometimes(&mut out, rng);
     }
     out
 }
